@@ -1537,7 +1537,7 @@ META = {
              "folds.  A GeoBox is abstracted to its pixel window (offset, shape) in a root grid: the affine algebra of "
              "GeoBox.__getitem__ is C02's subject; the harness checks the translation is exact (power-of-two "
              "resolution, sizes < 2^53).  The model of extract takes windows without steps (step None); stepped windows (positive steps honoured "
-             "since repair 058c8f3, zero/negative rejected) are covered by the search against numpy only.  "
+             "since repair 6c926d0, zero/negative rejected) are covered by the search against numpy only.  "
              "Domain restrictions in the theorems: tile sizes >= 1 (0 is proved to be an "
              "error), base >= 0 (>= 1 for tile_shape/chunks; base 0 has its own theorem, and tile_shape((-1,..)) then "
              "answers the tile size: recorded Example), chunk entries >= 0 with total < 2^63 (the Example "
